@@ -316,6 +316,16 @@ def tour_traces(facet: str, seed: int, chk) -> List[Dict[str, Any]]:
                 if a == "red-compromise":
                     tour.compromise(env.game, facet)
                 done.append(a)
+                if a == "node-application-remove" and node.operating_state.name == "ON":
+                    # an uninstalled item gets no more ticks: its track ends BEFORE the step that removes it (a node that is
+                    # not ON refuses the removal: the track goes on)
+                    name = tour.TARGET[facet][1]
+                    tr = live.pop(name, None)
+                    if tr is not None:
+                        REC.tracks.remove(tr)
+                        if tr in REC.by_sw.get(id(tr.sw), []):
+                            REC.by_sw[id(tr.sw)].remove(tr)
+                        finished.append(tr)
                 env.step(idx[a])
                 rebind()
         except Exception as e:  # noqa
